@@ -255,6 +255,30 @@ Definition parse_in (tbl : list ((bytes * bytes) * option bytes)) (name rv : byt
   | None => None
   end.
 
+(* ---- env_var_loader.go: LoadConfigFromEnvironment(environ) ----
+   for each "NAME=value": split at the first '=', lower-case the name; if it starts with "felix_" the rest of the name is
+   the parameter name (lower-case!) and the value is stored in the result map (a later entry overwrites). *)
+Fixpoint split_eq (s : bytes) : option (bytes * bytes) :=
+  match s with
+  | [] => None
+  | c :: t => if c =? 61 then Some ([], t)
+              else match split_eq t with Some (k, v) => Some (c :: k, v) | None => None end
+  end.
+Fixpoint has_prefix (p s : bytes) : bool :=
+  match p, s with
+  | [], _ => true
+  | x :: p', y :: s' => (x =? y) && has_prefix p' s'
+  | _, _ => false
+  end.
+Definition felix_prefix : bytes := [102; 101; 108; 105; 120; 95].
+Definition env_entry (kv : bytes) : option (bytes * bytes) :=
+  match split_eq kv with
+  | None => None
+  | Some (k, v) => let lk := lower_b k in if has_prefix felix_prefix lk then Some (skipn 6 lk, v) else None
+  end.
+Definition load_env (environ : list bytes) : list (bytes * bytes) :=
+  fold_left (fun m kv => match env_entry kv with Some (k, v) => aset beqb k v m | None => m end) environ [].
+
 (* byte strings from Coq string literals (used by Gen.v and by the cases the driver prints) *)
 From Coq Require Import String Ascii.
 Fixpoint b (s : string) : bytes :=
